@@ -65,7 +65,7 @@ PROPS = {
         "assumptions": ["fewer than 14 groups alive is the precondition under which the search succeeds"],
     },
     "C18": {
-        "claim": "Decides the structural clauses XP1–XP4 of to_xml()/to_dot(): per-vertex emission is control-dependent on the slot's tag being non-zero (sibling rule over keys / Debug / to_xml / to_dot), vertices come from the ascending store iteration or a sort by id and edges pass a sort by label, one edge entry per item of the vertex's edge map with that item's label and target and no condition on the edge, and the data entry is guarded by persistence ∉ {Empty} (nothing narrower) and prints that vertex's data. Does not decide well-formedness/escaping of the produced text.",
+        "claim": "Decides the structural clauses XP1–XP4 of to_xml()/to_dot(): per-vertex emission is control-dependent on the slot's tag being non-zero (sibling rule over keys / Debug / to_xml / to_dot), vertices come from the ascending store iteration or a sort by id and edges pass a sort by label, one edge entry per item of the vertex's edge map with that item's label and target and no condition on the edge, and the data entry is guarded by persistence ∉ {Empty} (nothing narrower) and prints that vertex's data. Does not decide well-formedness/escaping of the produced text. RW7 (derived Ord of Label: the sort the exports rely on is the total order of the enum value) and HX6 (Display of Hex, which the DOT export embeds, writes exactly print()) are run as premises.",
         "note": "Trusted: rustc front end + engine; emap iteration is ascending and skips no Some slot; itertools sorted_by_key is a stable sort. The text-level clause (document parses back) is not decided.",
         "technique": "MIR guard + iterator-chain (taint/sanitiser) + provenance rules",
         "rules": [("XP1", L.xp1), ("XP2", L.xp2), ("XP3", L.xp3), ("XP4", L.xp4), ("RW7", LB.lb7), ("HX6", H.hx6)],
@@ -83,7 +83,7 @@ PROPS = {
         "assumptions": [],
     },
     "C17": {
-        "claim": "Decides the structural clauses LB1–LB5: the single-character variant is chosen by a character count of exactly 1 (chars-derived), never by the UTF-8 byte length; every store into the 8-slot array cannot leave the array (index tested to be in 0..=7, get_mut, or iter_mut zipped slots-first), all 8 slots are usable, slot i receives the i-th of all characters of the text, and a 9th character reaches a constructed Err (no panic, no truncation); the alpha index is the parsed text after exactly one skipped character and the parse error is propagated; the padding character written by from_str is the one Debug filters, the alpha prefix tested is the one printed, the Greek arm prints exactly its character, Display delegates to Debug. Does not decide round-trip equality or injectivity over all strings.",
+        "claim": "Decides the structural clauses LB1–LB5: the single-character variant is chosen by a character count of exactly 1 (chars-derived), never by the UTF-8 byte length; every store into the 8-slot array cannot leave the array (index tested to be in 0..=7, get_mut, or iter_mut zipped slots-first), all 8 slots are usable, slot i receives the i-th of all characters of the text, and a 9th character reaches a constructed Err (no panic, no truncation); the alpha index is the parsed text after exactly one skipped character and the parse error is propagated; the padding character written by from_str is the one Debug filters, the alpha prefix tested is the one printed, the Greek arm prints exactly its character, Display delegates to Debug. Does not decide round-trip equality or injectivity over all strings. RW7: the comparison traits of Label are derived (equality of labels is equality of the enum value).",
         "note": "Trusted: rustc front end + engine; std str::chars/parse. The value-level round trip and injectivity are not decided; these clauses are necessary conditions of it.",
         "technique": "MIR taint (byte length vs char count) + guard + writer/reader constant agreement",
         "rules": [("LB1", LB.lb1), ("LB2", LB.lb2), ("LB3", LB.lb3), ("LB4/LB5", LB.lb45), ("RW7", LB.lb7)],
@@ -92,7 +92,7 @@ PROPS = {
         "assumptions": [],
     },
     "C15": {
-        "claim": "Decides the structural clauses HX1–HX5: each of the eight Index/IndexMut impls guards its inline-array access by exactly the comparison the byte slice's own bound check makes (bounds table), with the other edge panicking; eq/print/to_vec/byte_at/tail/to_i64/to_f64/to_utf8/is_empty/to_bool/Debug/Display never look at the representation, only at bytes()/len()/print(); bytes() is the array cut to exactly the length field and len() the stored length; numeric conversions use the big-endian pair through a whole-bytes [u8; 8] conversion with the error propagated; from_slice picks the inline form iff len ≤ 8, copies exactly slice.len() bytes and records slice.len(). Does not decide from_str(print(h)) == h (value round trip through the hex crate).",
+        "claim": "Decides the structural clauses HX1–HX5: each of the eight Index/IndexMut impls guards its inline-array access by exactly the comparison the byte slice's own bound check makes (bounds table), with the other edge panicking; eq/print/to_vec/byte_at/tail/to_i64/to_f64/to_utf8/is_empty/to_bool/Debug/Display never look at the representation, only at bytes()/len()/print(); bytes() is the array cut to exactly the length field and len() the stored length; numeric conversions use the big-endian pair through a whole-bytes [u8; 8] conversion with the error propagated; from_slice picks the inline form iff len ≤ 8, copies exactly slice.len() bytes and records slice.len(). Does not decide from_str(print(h)) == h (value round trip through the hex crate). HX6: Display and Debug of Hex write exactly print().",
         "note": "Trusted: rustc front end + engine; std slice/array indexing semantics (the bounds table is derived from them); hex crate. The text round trip is not decided.",
         "technique": "MIR sibling-agreement (bounds table) + representation-encapsulation + provenance rules",
         "rules": [("HX1", H.hx1), ("HX2", H.hx2), ("HX3", H.hx3), ("HX4", H.hx4), ("HX5", H.hx5), ("HX6", H.hx6)],
@@ -146,10 +146,10 @@ PROPS = {
         "assumptions": [],
     },
     "C07": {
-        "claim": "Decides the sodg-side clause, in the conservative direction: no user-written unsafe block/fn/impl/extern block, raw pointer or transmute anywhere in the crate (HIR + MIR); every resolved callee in emap/micromap/microstack is outside the audited deny-list (uninitialised constructor, bitwise-reading iterators, *_unchecked, any unsafe fn), so each element access goes through an entry point that asserts its bound in a debug-assertion build; Stack::from_vec only on a literal of at most 16 elements; the locked checksums of the containers equal the audited ones; the element types for which the containers' bitwise reads are sound are unchanged; a graph built from the ids of another one (slice) gets that graph's vertex capacity. It can reject code that is in fact safe; it cannot accept code that leaves the checked API. Does not decide the containers' internals, release builds, or 'calls within the limits complete' (C02's no-panic clause).",
+        "claim": "Decides the sodg-side clause, in the conservative direction: no user-written unsafe block/fn/impl/extern block, raw pointer or transmute anywhere in the crate (HIR + MIR); every resolved callee in emap/micromap/microstack is outside the audited deny-list (uninitialised constructor, bitwise-reading iterators, *_unchecked, any unsafe fn), so each element access goes through an entry point that asserts its bound in a debug-assertion build; Stack::from_vec only on a literal of at most 16 elements; the locked checksums of the containers equal the audited ones; the element types for which the containers' bitwise reads are sound are unchanged; a graph built from the ids of another one (slice) gets that graph's vertex capacity. It can reject code that is in fact safe; it cannot accept code that leaves the checked API. Does not decide the containers' internals, release builds, or 'calls within the limits complete' (C02's no-panic clause). GC6c: the two group tables are created with the same size, so a group id valid for one is valid for the other.",
         "note": "Trusted: the audit of emap 0.0.13 / micromap 0.0.19 / microstack 0.0.7 by reading (DESIGN §3): bounds asserted under debug_assertions, push asserts in all builds. Claimed for debug-assertion builds only, as the property says.",
         "technique": "HIR/MIR unsafe scan + who-may-call deny-list over resolved callees + lockfile/type facts",
-        "rules": [("MS1", MS.ms1), ("MS2", MS.ms2), ("MS3", MS.ms3), ("MS4", MS.ms4), ("MS5", MS.ms5), ("MS6", MS.ms6), ("MS2x", MS.ms_cross)],
+        "rules": [("MS1", MS.ms1), ("MS2", MS.ms2), ("MS3", MS.ms3), ("MS4", MS.ms4), ("MS5", MS.ms5), ("MS6", MS.ms6), ("GC6c", functools.partial(G.gc6, parts="c")), ("MS2x", MS.ms_cross)],
         "explanation": "MS1 no unsafe, MS2 container deny-list over all resolved callees (floor 60 sites), MS3 from_vec literal, MS4 audited checksums, MS5 element types; thorough adds a clippy disallowed_methods cross-check.",
         "trusted": [RUSTC, CONTAINERS],
         "assumptions": ["debug-assertion builds"],
@@ -165,28 +165,35 @@ PROPS = {
         "assumptions": ["capacity limits and documented preconditions"],
     },
     "C11": {
-        "claim": "Decides MG1–MG6: nothing is written through the right-graph parameter (h is unchanged); the call closure of merge changes the left graph only through add/bind/put/next_id, so the GC state after a merge is one those calls produce and C01–C03 carry over; every bind(left,_,a) is control-dependent on kid(left,a) being None (an existing edge is never redirected); a new vertex is created exactly on the path where neither kid(left,a) nor the map has a target, as next_id → add(id) → bind(left,id,a); put(left,d) is guarded by the right vertex having data and d is that vertex's data; the descent recurses on (matched, to) after marking right in the map; merge() constructs an Err only on the edge where the completeness test fails (MG8: 'returns Ok' is not refused for any other reason; errors propagated from the descent aside). Does not decide that every labelled path of h exists afterwards with equal data nor injectivity of the mapping (graph-level value facts).",
+        "claim": "Decides MG1–MG6: nothing is written through the right-graph parameter (h is unchanged); the call closure of merge changes the left graph only through add/bind/put/next_id, so the GC state after a merge is one those calls produce and C01–C03 carry over; every bind(left,_,a) is control-dependent on kid(left,a) being None (an existing edge is never redirected); a new vertex is created exactly on the path where neither kid(left,a) nor the map has a target, as next_id → add(id) → bind(left,id,a); put(left,d) is guarded by the right vertex having data and d is that vertex's data; the descent recurses on (matched, to) after marking right in the map; merge() constructs an Err only on the edge where the completeness test fails (MG8: 'returns Ok' is not refused for any other reason; errors propagated from the descent aside). Does not decide that every labelled path of h exists afterwards with equal data nor injectivity of the mapping (graph-level value facts). Because the statement ends with 'afterwards g keeps obeying C01–C03', the rules for the three mutators merge() acts through are run as premises as well (GC4 counter accounting, GC5 joins, GC7 add, RW1 bind's edge insert, RW4/RW5 put/data), and MG5 demands that the datum is carried over under no condition other than the right vertex having one.",
         "note": "Trusted: rustc front end + engine; std HashMap. merge() on non-tree input is outside the property (scoped exemption for the repair helper).",
         "technique": "MIR purity (read-only parameter) + who-may-call + guard/provenance rules on the descent",
-        "rules": [("MG1", MG.mg1), ("MG2", MG.mg2), ("MG3-6", MG.mg3456), ("MG7/MG8", MG.mg78)],
+        "rules": [("MG1", MG.mg1), ("MG2", MG.mg2), ("MG3-6", MG.mg3456), ("MG7/MG8", MG.mg78),
+                  # "afterwards g keeps obeying C01-C03": the rules for the three mutators merge() acts through are premises
+                  ("GC4", G.gc4), ("GC5", G.gc5), ("GC7", functools.partial(G.gc7, part="ab")), ("RW1", RW.rw1), ("RW4/RW5", RW.rw45)],
         "explanation": "MG1 read-only right graph, MG2 additive through the API only, MG3 bind guard, MG4 creation shape, MG5 data copy, MG6 descent/marking, MG7/MG8 Ok/Err exactly on the completeness test.",
         "trusted": [RUSTC, CONTAINERS],
         "assumptions": ["both graphs are trees of present vertices"],
     },
     "C12": {
-        "claim": "Decides MG7–MG8, the whole statement: every Ok(()) returned by merge() is control-dependent on the success of the descent and on equality between the size of the map the descent filled and the number of present vertices of the right graph; on the other edge an Err is returned whose text derives from the set difference keys(right) − mapped keys, sorted. Since the map gains one entry per visited right vertex (MG6), equality of the counts is completeness.",
+        "claim": "Decides MG7–MG8, the whole statement: every Ok(()) returned by merge() is control-dependent on the success of the descent and on equality between the size of the map the descent filled and the number of present vertices of the right graph; on the other edge an Err is returned whose text derives from the set difference keys(right) − mapped keys, sorted. Since the map gains one entry per visited right vertex (MG6), equality of the counts is completeness. GC7 (add() hands out a blank vertex) is run as a premise: a re-added id with stale edges would inflate the map the completeness test counts.",
         "note": "Trusted: rustc front end + engine; std HashMap/HashSet; MG6 (one map entry per visited right vertex) is checked under C11 and re-run here.",
         "technique": "MIR guard rule on the success return + provenance of the error text",
-        "rules": [("MG7/MG8", MG.mg78), ("MG6", MG.mg3456)],
+        "rules": [("MG7/MG8", MG.mg78), ("MG6", MG.mg3456),
+                  # the completeness count relies on add() handing out blank vertices (a re-added id with stale edges inflates the map)
+                  ("GC7", functools.partial(G.gc7, part="ab"))],
         "explanation": "MG7 Ok guarded by ?-success ∧ |mapped| == |right|, MG8 Err names the difference, sorted.",
         "trusted": [RUSTC],
         "assumptions": [],
     },
     "C13": {
-        "claim": "Decides SL1–SL6: every insertion into the work set inside the closure loop is control-dependent on the visited set not containing that vertex and the vertex is marked on enqueue or dequeue (each vertex processed at most once: termination on cycles; roles found structurally); a vertex is enqueued only under p(from,to,label) true with exactly the scanned edge's components, every edge of a visited vertex being scanned; the rebuild calls add/bind only, bind(v1,v2,k) with exactly (outer key, inner target, inner label) of the edge iterated, control-dependent on nothing but membership of both endpoints in the visited set; nothing is written through &self; the slice has the source's capacity; slice() passes the constantly-true predicate. Does not decide set equality with graph reachability as such.",
+        "claim": "Decides SL1–SL6: every insertion into the work set inside the closure loop is control-dependent on the visited set not containing that vertex and the vertex is marked on enqueue or dequeue (each vertex processed at most once: termination on cycles; roles found structurally); a vertex is enqueued only under p(from,to,label) true with exactly the scanned edge's components, every edge of a visited vertex being scanned; the rebuild calls add/bind only, bind(v1,v2,k) with exactly (outer key, inner target, inner label) of the edge iterated, control-dependent on nothing but membership of both endpoints in the visited set; nothing is written through &self; the slice has the source's capacity; slice() passes the constantly-true predicate. Does not decide set equality with graph reachability as such. RW1, GC5 and GC7 (contracts of bind() and add(), with which the slice is rebuilt) are run as premises.",
         "note": "Trusted: rustc front end + engine; std HashSet. Soundness of each copy, completeness of the scan and termination are decided; equality of the kept set with the reachable set follows by the standard work-list argument (hand).",
         "technique": "MIR visited-set discipline (guard + co-occurrence) + provenance of rebuild arguments + purity",
-        "rules": [("SL1/SL2", SL.sl12), ("SL3-6", SL.sl3456)],
+        "rules": [("SL1/SL2", SL.sl12), ("SL3-6", SL.sl3456),
+                  # the slice is rebuilt with add() and bind(): their own contracts are premises (edge recorded, vertex blank, joins
+                  # that keep the member lists within the limits)
+                  ("RW1", RW.rw1), ("GC5", G.gc5), ("GC7", functools.partial(G.gc7, part="ab"))],
         "explanation": "SL1 visited-set discipline, SL2 predicate arguments, SL3 rebuild shape, SL4 read-only source, SL5 capacity, SL6 constant predicate.",
         "trusted": [RUSTC, CONTAINERS],
         "assumptions": ["everything reachable from v is present and numbers at most 14 vertices"],
@@ -201,7 +208,7 @@ PROPS = {
         "assumptions": ["sequences that fit within the limits of both configurations"],
     },
     "C14": {
-        "claim": "Decides SC1–SC4: in the per-command function the three graph calls are control-dependent on the command name (capture 1 of the command text) being equal to ADD / BIND / PUT and take add(id(arg0)), bind(id(arg0), id(arg1), Label::from_str(arg2)), put(id(arg0), data(arg1)) on the given graph, with no other graph mutation in the closure of deploy_to; one next_id per variable name (NX5); the returned count is incremented exactly once on the success edge of each deployed command and commands run in split(';') order through order-preserving adaptors only; no panicking operation on script-derived data outside an audited table (Regex::new on literals, captures that always participate, hex-pair parsing dominated by the hex-pairs regex). Does not decide the grammar itself (what the regular expressions accept: comment stripping, whitespace, hex formatting).",
+        "claim": "Decides SC1–SC4: in the per-command function the three graph calls are control-dependent on the command name (capture 1 of the command text) being equal to ADD / BIND / PUT and take add(id(arg0)), bind(id(arg0), id(arg1), Label::from_str(arg2)), put(id(arg0), data(arg1)) on the given graph, with no other graph mutation in the closure of deploy_to; one next_id per variable name (NX5); the returned count is incremented exactly once on the success edge of each deployed command and commands run in split(';') order through order-preserving adaptors only; no panicking operation on script-derived data outside an audited table (Regex::new on literals, captures that always participate, hex-pair parsing dominated by the hex-pairs regex). Does not decide the grammar itself (what the regular expressions accept: comment stripping, whitespace, hex formatting). SC5: Script::from_str stores exactly the text it is given, and an identifier loses exactly its one sigil before it reaches the number parser or the variable table.",
         "note": "Trusted: rustc front end + engine; regex crate semantics for the audited exceptions. The grammar (language accepted by the four regular expressions) is not code shape and is not decided; e.g. a trailing comment without newline is not stripped (DESIGN §4).",
         "technique": "MIR dispatch-table agreement (guard + argument provenance) + error-discipline rule",
         "rules": [("SC1", SC.sc1), ("SC2", NX.nx5), ("SC3", SC.sc3), ("SC4", SC.sc4), ("SC5", SC.sc5)],
